@@ -198,6 +198,7 @@ int main(int argc, char **argv) {
     sigaction(SIGSEGV, &sa, NULL); sigaction(SIGBUS, &sa, NULL);
     while (fgets(line, sizeof line, ops)) {
         char *id = NULL, *fn = NULL, *hf = NULL, *as = NULL, *dm = NULL, *save = NULL;
+        int noref = 0;              /* noref=1: do not ask glibc (fields of 2^31 characters take it seconds) */
         size_t L = strlen(line);
         while (L && (line[L - 1] == '\n' || line[L - 1] == '\r')) line[--L] = 0;
         for (char *tok = strtok_r(line, " ", &save); tok; tok = strtok_r(NULL, " ", &save)) {
@@ -206,6 +207,7 @@ int main(int argc, char **argv) {
             else if (!strncmp(tok, "fmt=", 4)) hf = tok + 4;
             else if (!strncmp(tok, "args=", 5)) as = tok + 5;
             else if (!strncmp(tok, "dmax=", 5)) dm = tok + 5;
+            else if (!strcmp(tok, "noref=1")) noref = 1;
         }
         if (!id || !fn || !hf) continue;
         Arg a[MAXARGS];
@@ -224,7 +226,8 @@ int main(int argc, char **argv) {
         errno = 0;
         int refret = -2;            /* -2: glibc itself faulted on this format (e.g. %n through an integer argument) */
         in_call = 1;
-        if (sigsetjmp(jb, 1) == 0) refret = gcall((void *)t_ref, 3, fx, a, na);
+        if (noref) refret = -3;
+        else if (sigsetjmp(jb, 1) == 0) refret = gcall((void *)t_ref, 3, fx, a, na);
         in_call = 0;
         size_t reflen = refret < 0 ? 0 : (size_t)refret < REFSZ ? (size_t)refret : REFSZ - 1;
         /* the call */
